@@ -157,12 +157,12 @@ Proof.
         replace (1 <=? i) with true by (symmetry; apply N.leb_le; lia). cbn [bind].
         rewrite (IH (i - 1) self divisor q3 (split (2 * val r + b - d))); try assumption.
         -- rewrite <- Heqn, <- Heqd. reflexivity.
-        -- apply wf_split. change (2 ^ 128) with (2 * 2 ^ 127). lia.
+        -- apply wf_split. change (2 ^ 128) with (2 * 2 ^ 127). clear - Lr E Hb. lia.
         -- rewrite <- Heqd. exact Hpos.
-        -- lia.
-        -- lia.
-        -- rewrite <- Heqn, <- Heqd. replace (i - 1 + 1) with i by lia. rewrite T', Vq3, Dq, Eq. reflexivity.
-        -- rewrite <- Heqn, <- Heqd. replace (i - 1 + 1) with i by lia. rewrite T', val_split, Dr. reflexivity.
+        -- clear - Hi Ei; lia.
+        -- clear - Hf Ei; lia.
+        -- rewrite <- Heqn, <- Heqd. replace (i - 1 + 1) with i by (clear - Ei; lia). rewrite T', Vq3, Dq, Eq. reflexivity.
+        -- rewrite <- Heqn, <- Heqd. replace (i - 1 + 1) with i by (clear - Ei; lia). rewrite T', val_split, Dr. reflexivity.
     + apply N.leb_gt in E. destruct (Clt E) as [Dq Dr].
       cbn [bind fst snd].
       destruct (i =? 0) eqn:Ei.
@@ -173,10 +173,10 @@ Proof.
         rewrite (IH (i - 1) self divisor (split (2 * val q)) r2); try assumption.
         -- rewrite <- Heqn, <- Heqd. reflexivity.
         -- rewrite <- Heqd. exact Hpos.
-        -- lia.
-        -- lia.
-        -- rewrite <- Heqn, <- Heqd. replace (i - 1 + 1) with i by lia. rewrite T', val_split, Dq, Eq. reflexivity.
-        -- rewrite <- Heqn, <- Heqd. replace (i - 1 + 1) with i by lia. rewrite T', Vr2, Dr. reflexivity.
+        -- clear - Hi Ei; lia.
+        -- clear - Hf Ei; lia.
+        -- rewrite <- Heqn, <- Heqd. replace (i - 1 + 1) with i by (clear - Ei; lia). rewrite T', val_split, Dq, Eq. reflexivity.
+        -- rewrite <- Heqn, <- Heqd. replace (i - 1 + 1) with i by (clear - Ei; lia). rewrite T', Vr2, Dr. reflexivity.
 Qed.
 
 Lemma u128_div_fuel_full fuel a b : (128 <= fuel)%nat -> wf a -> wf b ->
